@@ -628,6 +628,15 @@ example : (ca.close.fst.pending = [] ∧ ca.close.fst.disk.schema = some la1.img
 
 example : ∀ p ∈ l2.index.reload.ids, p.fst < l2.index.reload.next := C04_ids_not_reused wf2
 
+-- the decimal reader: 0.1 = 0x3FB999999999999A is accepted for exactly that key, its neighbours
+-- are rejected, and the hypotheses of C04_decimal_adjacent_excl_partial hold at that key
+example : Codec.decIsKey ⟨false, 1, -1⟩ 4591870180066957722 = true := by decide
+example : Codec.decIsKey ⟨false, 1, -1⟩ 4591870180066957723 = false := by decide
+example : Codec.decIsKey ⟨false, 1, -1⟩ 4591870180066957721 = false := by decide
+example : ¬ (Codec.decIsKey ⟨false, 1, -1⟩ ((4591870180066957722 : Nat) : Int) = true ∧
+    Codec.decIsKey ⟨false, 1, -1⟩ ((4591870180066957722 + 1 : Nat) : Int) = true) :=
+  C04_decimal_adjacent_excl_partial _ _ (by decide) (by decide) (by decide)
+
 /-! ### C05 -/
 
 theorem typed3s : Obj.Typed l2.index (storedObj E l2 o3 3) := by rw [stored3]; exact typed3
